@@ -96,6 +96,15 @@ CLAIMED.update({
             TGEN_NOTE, "DESIGN.md 4/C08"),
 })
 
+CLAIMED.update({
+    "C19": ("Coq theorems (padding for all lengths/block sizes; CTR over an arbitrary block function incl. prefix independence; handler case analysis; MAC lookup) + correspondence through the add-only hook with crypto/aes as oracle",
+            "Proved: C19_pad (1..blocksize bytes each equal to the pad length, total a multiple), C19_short_ignored, C19_bad_key, C19_dispatch (plaintext = CTR decryption of bytes 8.. with the 16-bit LE nonce as initial counter block; type 0x01 decoded by the solar-charger decoder, other types not), C19_ctr_prefix, C19_total (the decoding is C07's and never faults), C19_mac_lookup, C19_mac_address. The real handler is run (one BleStruct instance for the whole history) on payload lengths 0..64, all record types, key lengths 0..40, nonces, and device lookups with well-formed and malformed addresses; the judge recomputes the CTR decryption from single-block AES encryptions.",
+            TGEN_NOTE + "AES and cipher.NewCTR are trusted library code (block function = oracle); the handler's effects are read from its log output.", "DESIGN.md 4/C19"),
+    "C20": ("Coq theorems over the CLI model (count line, one line per delivered register sorted by key, error lines for silent devices) + the freshly built vecli binary against a pty device simulator + I/O log replay",
+            "C20_output, C20_silent_during_connect, C20_silent_after_connect are proved over Cli.v (composition of connect, streaming and the stable sort). The real binary is run against a simulated device behind a pseudo-terminal for products of every class with random register contents and flags -, -v, --io-log; every printed value is parsed and compared with the model run on the same script; silence at ping / id query / after k answers (between frames and mid-frame) must give the documented error lines and termination; the written I/O log must replay to the same values.",
+            API_NOTE + "The serial line discipline, the 200 ms timeout, printf formatting and process exit are runtime behaviour exercised, not proved.", "DESIGN.md 4/C20"),
+})
+
 PENDING_REASON = "check not built yet in this session (work in progress; see DESIGN.md section 10)"
 
 
@@ -124,7 +133,7 @@ def main():
             "guard": "verif",
             "enable": "go build -tags verif (harness module /verif/harness with replace => /repo)",
             "baseline_off_cmd": "cd /repo && go test -mod=mod -vet=off -count=1 ./...",
-            "source_commits": ["5f0e031"],
+            "source_commits": ["5f0e031", "e421dde", "e7c17b9"],
             "add_only": True,
         },
         "engines": [
